@@ -88,6 +88,26 @@ func isNilPointer(v Value) bool {
 	return r.Kind() == reflect.Ptr && r.IsNil()
 }
 
+// basicValue returns v as a value of the built-in type of its kind when v is a
+// uintptr or belongs to a type defined over a basic kind (type ID int64, type
+// Colour string): such a value is carried like any other of that kind.
+func basicValue(v Value) (Value, bool) {
+	r := reflect.ValueOf(v)
+	switch r.Kind() {
+	case reflect.Int, reflect.Int8, reflect.Int16, reflect.Int32, reflect.Int64:
+		return r.Int(), true
+	case reflect.Uint, reflect.Uint8, reflect.Uint16, reflect.Uint32, reflect.Uint64, reflect.Uintptr:
+		return r.Uint(), true
+	case reflect.Float32, reflect.Float64:
+		return r.Float(), true
+	case reflect.String:
+		return r.String(), true
+	case reflect.Bool:
+		return r.Bool(), true
+	}
+	return nil, false
+}
+
 // unwrapSafe returns the value inside any number of nested SafeValue wrappers.
 // A typed nil pointer to a SafeValue implementation holds nothing.
 func unwrapSafe(v Value) Value {
@@ -154,6 +174,9 @@ func CoerceBool(v Value) bool {
 		}
 		return vc.Number() > 0
 	}
+	if b, ok := basicValue(v); ok {
+		return CoerceBool(b)
+	}
 	return false
 }
 
@@ -213,10 +236,15 @@ func CoerceNumber(v Value) float64 {
 		if !isNilPointer(vc) && vc.Boolean() {
 			return 1
 		}
+		return 0
 	case bool:
 		if vc {
 			return 1
 		}
+		return 0
+	}
+	if b, ok := basicValue(v); ok {
+		return CoerceNumber(b)
 	}
 	return 0
 }
@@ -244,11 +272,15 @@ func CoerceString(v Value) string {
 		if !isNilPointer(vc) && vc.Boolean() == true {
 			return "1" // Twig compatibility (aka PHP compatibility)
 		}
+		return ""
 	case bool:
 		if vc == true {
 			return "1" // Twig compatibility (aka PHP compatibility)
 		}
-
+		return ""
+	}
+	if b, ok := basicValue(v); ok {
+		return CoerceString(b)
 	}
 	return ""
 }
